@@ -586,7 +586,7 @@ class CFG:
         return " -> ".join(out)
 
 
-CATCH_ALL = {"BaseException", "Exception"}
+CATCH_ALL = {"BaseException"}
 
 
 def handler_names(h: ast.ExceptHandler) -> list[str]:
